@@ -1,20 +1,47 @@
 import Enc.Model.Json.EncString
 import Enc.Spec.Json.StdEnc
+import Enc.Lemmas.JsonEncString
+import Enc.Lemmas.JsonEncInt
 /-!
 # C01 — json.Marshal is byte-for-byte encoding/json.Marshal
-Property theorems only (scalar layer; the type-shape layer is decided by the type-directed differential, see DESIGN.md).
+Property theorems only: the scalar layer (string escaping, integer formatting) is proved equal to an independent
+transcription of encoding/json's appendString / strconv decimal; the type-shape layer (struct fields, tags, embedding,
+maps, interfaces, encoder settings) is decided by the type-directed differential against encoding/json (DESIGN.md).
 -/
 namespace Enc.Props.C01
 open Enc Enc.Model.Json
 
 /-- the regenerated hex table is lowercase hexadecimal -/
-theorem hex_table (n : Nat) (h : n < 16) : hexDigitLower n = Spec.Json.hexLower n := by
-  have : n = 0 ∨ n = 1 ∨ n = 2 ∨ n = 3 ∨ n = 4 ∨ n = 5 ∨ n = 6 ∨ n = 7 ∨ n = 8 ∨ n = 9 ∨ n = 10 ∨ n = 11 ∨ n = 12 ∨
-      n = 13 ∨ n = 14 ∨ n = 15 := by omega
-  rcases this with h | h | h | h | h | h | h | h | h | h | h | h | h | h | h | h <;> subst h <;> decide +kernel
+theorem hex_table (n : Nat) (h : n < 16) : hexDigitLower n = Spec.Json.hexLower n :=
+  Lemmas.JsonEncString.hex_table n h
 
 /-- the regenerated two-digit table: entry j is the two ASCII digits of j -/
-theorem two_digits_table : ∀ j : Fin 100, twoDigits j.val = [UInt8.ofNat (0x30 + j.val / 10), UInt8.ofNat (0x30 + j.val % 10)] := by
-  decide +kernel
+theorem two_digits_table : ∀ j : Fin 100, twoDigits j.val = [UInt8.ofNat (0x30 + j.val / 10), UInt8.ofNat (0x30 + j.val % 10)] :=
+  Lemmas.JsonEncInt.two_digits_table
+
+/-- MAIN (strings): the SWAR scan + escape loop of json/encode.go produces, for every byte string and both EscapeHTML
+settings, exactly the bytes of encoding/json's appendString (escapes, U+2028/2029, invalid UTF-8 → \ufffd). -/
+theorem encodeString_eq (s : Bytes) (escapeHTML : Bool) :
+    encodeString s escapeHTML = Spec.Json.appendString s escapeHTML :=
+  Lemmas.JsonEncString.encodeString_eq s escapeHTML
+
+/-- the 8-bytes-at-a-time scan is the byte-wise search for the first byte that needs an escape (no false positives) -/
+theorem escapeIndex_spec (s : Bytes) (html : Bool) :
+    match escapeIndex s html with
+    | none => ∀ c ∈ s, needsEscapeByte c html = false
+    | some j => j < s.length ∧ ∀ c ∈ s.take j, needsEscapeByte c html = false :=
+  Lemmas.JsonEncString.escapeIndex_spec s html
+
+/-- MAIN (integers): the two-digits-at-a-time formatter produces the decimal representation for every 64-bit magnitude -/
+theorem formatInteger_eq (n : Nat) (h : n < 2 ^ 64) (neg : Bool) :
+    formatInteger n neg = (if neg then [0x2d] else []) ++ Spec.Json.decimal n :=
+  Lemmas.JsonEncInt.formatInteger_eq' n h neg
+
+theorem appendInt_eq (i : Int) (h : -2 ^ 63 ≤ i ∧ i < 2 ^ 64) : appendInt i = Spec.Json.intString i :=
+  Lemmas.JsonEncInt.appendInt_eq i h
+
+/-- non-vacuity: a string with HTML, a control byte, U+2028 and invalid UTF-8 -/
+example : encodeString [0x3c, 0x61, 0x01, 0xe2, 0x80, 0xa8, 0xff, 0x22] true
+    = Spec.Json.appendString [0x3c, 0x61, 0x01, 0xe2, 0x80, 0xa8, 0xff, 0x22] true := encodeString_eq _ _
 
 end Enc.Props.C01
